@@ -15,34 +15,34 @@ EXTENDS Naturals, Sequences, TLC, Json, IOUtils
 
 Trace == ndJsonDeserialize(IOEnv.TRACE_FILE)
 
-VARIABLES l, bad
-tkvars == <<l, bad>>
+VARIABLES tkLine, bad
+tkvars == <<tkLine, bad>>
 
 MaxBad == 40
 
 Tag(fails, line) == [i \in 1..Len(fails) |-> <<fails[i], line>>]
 Cap(s) == IF Len(s) > MaxBad THEN SubSeq(s, 1, MaxBad) ELSE s
 
-TKInit == l = 1 /\ bad = <<>> /\ TLCSet(1, <<"unfinished">>)
+TKInit == tkLine = 1 /\ bad = <<>> /\ TLCSet(1, <<"unfinished">>)
 
 (* Stateful trace specs write their step as                                               *)
-(*     TKAdvance /\ <spec action for Trace[l]> /\ TKRecord(<failing clause names>)        *)
+(*     TKAdvance /\ <spec action for Trace[tkLine]> /\ TKRecord(<failing clause names>)        *)
 (* where the clause names may be computed from primed variables (invariants evaluated in  *)
 (* the successor state).  (First-order on purpose: passing an action-level operator as an *)
 (* argument made TLC 10x slower.)                                                          *)
-TKAdvance == l <= Len(Trace) /\ l' = l + 1
+TKAdvance == tkLine <= Len(Trace) /\ tkLine' = tkLine + 1
 TKRecord(fails) ==
-    /\ bad' = Cap(bad \o Tag(fails, l))
-    /\ IF l = Len(Trace)
+    /\ bad' = Cap(bad \o Tag(fails, tkLine))
+    /\ IF tkLine = Len(Trace)
           THEN TLCSet(1, bad') /\ PrintT(<<"VERDICT", Len(Trace), bad'>>)
           ELSE TRUE
-Ev == Trace[l]
+Ev == Trace[tkLine]
 
 TKStep(Check(_)) ==
-    /\ l <= Len(Trace)
-    /\ l' = l + 1
-    /\ bad' = Cap(bad \o Tag(Check(Trace[l]), l))
-    /\ IF l = Len(Trace)
+    /\ tkLine <= Len(Trace)
+    /\ tkLine' = tkLine + 1
+    /\ bad' = Cap(bad \o Tag(Check(Trace[tkLine]), tkLine))
+    /\ IF tkLine = Len(Trace)
           THEN TLCSet(1, bad') /\ PrintT(<<"VERDICT", Len(Trace), bad'>>)
           ELSE TRUE
 
